@@ -48,7 +48,7 @@ pub fn jobs(prop: &str, tier: Tier) -> Vec<(String, u64)> {
         ("C04", Tier::Thorough) => q(&["P3", "P4", "D3p", "D4", "F4", "S", "R"]),
         ("C05", Tier::Quick) => q(&["F3q", "S", "P3"]),
         ("C05", Tier::Thorough) => q(&["F3", "F4", "S", "P3", "P4", "R"]),
-        ("C06", Tier::Quick) => q(&["V2", "V3", "G3", "S", "R", "P3"]),
+        ("C06", Tier::Quick) => q(&["V2", "V3", "G3", "S", "R", "P3", "F3q"]),
         ("C06", Tier::Thorough) => q(&["V2", "V3", "G3", "G4", "D3", "D4", "F3", "S", "R", "P3", "P4", "T3"]),
         ("C17", _) => q(&["R"]),
         ("C18", Tier::Quick) => q(&["T3", "R", "S", "V2"]),
@@ -644,6 +644,14 @@ pub fn monitor_c06(s: &Scenario, ex: &Execution) -> Findings {
             f.push(("false-cycle".into(), format!("no cycle of ordering edges among the requested steps, yet: {:?}", msg)));
         }
     }
+    // With failures and budget left it stops only when nothing further can
+    // run: every wanted step not downstream of a failure is decided.
+    f.extend(
+        monitor_c05(s, ex)
+            .into_iter()
+            .filter(|(k, _)| k == "undamaged-step-left-out-of-date")
+            .map(|(_, d)| ("stopped-although-work-remained".to_string(), d)),
+    );
     // With no failing command every wanted step ends up to date.
     let none_fail = s.outcomes.is_empty() && s.raw_depfile.is_empty();
     if none_fail && !unknown_target {
@@ -857,6 +865,13 @@ pub fn monitor_c17(s: &Scenario, ex: &Execution) -> Findings {
 }
 
 pub fn monitors(prop: &str, s: &Scenario, ex: &Execution) -> Findings {
+    // An invocation that panics establishes nothing; whatever the property,
+    // the panic itself is reported (C06 reports it through its own monitor).
+    if prop != "C06" {
+        if let BuildResult::Panicked(p) = &ex.result {
+            return vec![(p.key.clone(), format!("n2 panicked: {} at {}", p.message, p.location))];
+        }
+    }
     match prop {
         "C01" => monitor_c01(s, ex),
         "C04" => monitor_c04(s, ex),
